@@ -40,6 +40,8 @@ pub trait VSink: Sized {
             final(self).wf(),
             //@label - vsink.finalize.appends_only
             final(self).log().len() >= old(self).log().len() && final(self).log().subrange(0, old(self).log().len() as int) == old(self).log(),
+            //@label - vsink.finalize.total_fits_u64
+            final(self).log().len() <= u64::MAX,
     ;
 }
 
